@@ -994,16 +994,20 @@ def check_iteration(ctx, rng):
         from bqskit.ir.gates import CCXGate
         ident[3] = CCXGate()
     nops = rng.randint(0, 10)
+    hist = []
     for _ in range(nops):
         a = min(n, rng.choice([1, 1, 2, 2, 3]))
         loc = rng.sample(range(n), a)
         if rng.random() < 0.2 and c.num_cycles > 0:
             try:
-                c.insert_gate(rng.randrange(c.num_cycles), ident[a], loc)
+                cyi = rng.randrange(c.num_cycles)
+                c.insert_gate(cyi, ident[a], loc)
+                hist.append(['i', cyi, loc])
                 continue
             except Exception:
                 pass
         c.append_gate(ident[a], loc)
+        hist.append(['a', loc])
     nc = c.num_cycles
     grid = [[c._circuit[cy][q] for q in range(n)] for cy in range(nc)]
     kw = {}
@@ -1036,7 +1040,7 @@ def check_iteration(ctx, rng):
     kw['exclude'] = rng.random() < 0.4
     kw['reverse'] = rng.random() < 0.4
     desc.update(exclude=kw['exclude'], reverse=kw['reverse'])
-    case = dict(stream='iteration', n=n, grid=[[None if o is None else list(o.location) for o in row] for row in grid], args=desc)
+    case = dict(stream='iteration', n=n, build=hist, grid=[[None if o is None else list(o.location) for o in row] for row in grid], args=desc)
     ctx.case(case, nontrivial=nops > 0 and len(kw) > 2)
     ctx.count('iteration_' + mode + ('_end_past' if end_past else ''))
     if nc == 0:
@@ -1487,12 +1491,19 @@ def replay_iteration(ctx, case):
     n = case['n']
     c = Circuit(n)
     gates = {1: XGate(), 2: CNOTGate(), 3: CCXGate()}
-    for cy, row in enumerate(case['grid']):
-        seen = set()
-        for loc in row:
-            if loc is not None and tuple(loc) not in seen:
-                seen.add(tuple(loc))
-                c.append_gate(gates[len(loc)], loc)
+    if 'build' in case:
+        for h in case['build']:
+            if h[0] == 'a':
+                c.append_gate(gates[len(h[1])], h[1])
+            else:
+                c.insert_gate(h[1], gates[len(h[2])], h[2])
+    else:
+        for cy, row in enumerate(case['grid']):
+            seen = set()
+            for loc in row:
+                if loc is not None and tuple(loc) not in seen:
+                    seen.add(tuple(loc))
+                    c.append_gate(gates[len(loc)], loc)
     grid = [[None if o is None else list(o.location) for o in row] for row in c._circuit]
     if grid != case['grid']:
         ctx.broken_obligation('replay: recorded grid cannot be rebuilt by appending', str(case['grid'])[:300])
